@@ -93,7 +93,7 @@ def _decay_case(nprod, rest_kind):
                     E.eq('df_is_derivative_of_f', df(t), -sum(lam[i] * A0[i] * zs[i] for i in range(nprod)))
                 called.append((t, ft))
                 return t, ft
-            E.eq('f_is_total_activity_minus_target', f(x), total_at(x) - target)
+            E.eq('f_is_total_activity_minus_target', f(x), total_at(x) - target, scale=target)
             E.eq('df_is_derivative_of_f', df(x), -sum(lam[i] * A0[i] * math.exp(-lam[i] * x) for i in range(nprod)))
             r = real_find_root(x, f, df, max, tol)
             called.append(r)
